@@ -1,33 +1,33 @@
-(* Outcomes of modelled Rust code: a value, a panic (with the site that panicked), or fuel exhaustion
+(* Outcomes of modelled Rust code: a g_value, a p_panic (with the site that panicked), or fuel exhaustion
    (a loop/recursion bound of the model was hit: excluded by the termination theorems, never a default). *)
 From ApolloVerif Require Import Base.Chars.
 
-(* the panic sites of the parser *)
+(* the p_panic sites of the parser *)
 Inductive pwhy :=
-| PopFinished            (* Parser::pop: .expect("Could not pop a token from the lexer") *)
-| PushIgnoredUnreachable (* Parser::push_ignored: unreachable!() on a non-ignored pending token *)
-| BuilderFinishNode      (* rowan GreenNodeBuilder::finish_node: parents.pop().unwrap() / drain out of range *)
-| BuilderCheckpointLen   (* start_node_at: assert!(checkpoint <= children.len()) *)
-| BuilderCheckpointParent(* start_node_at: assert!(checkpoint >= first_child) *)
-| BuilderFinish          (* finish: assert_eq!(children.len(), 1) / root is a token *)
-| RecUnbalanced          (* document: assert_eq!(p.recursion_limit.current, 0) *)
-| RecUnderflow           (* LimitTracker::decrement: usize underflow (debug: panic; release: wrap) *)
-| NameSlice              (* name::validate_name: name[1..] off a char boundary *)
-| PeekNZero              (* peek_n_inner: n - 1 with n = 0 *)
-| DebugAssert.           (* peek_while / peek_while_kind: debug_assert!(before != current_token) *)
+| PnPopFinished            (* Parser::p_pop: .expect("Could not p_pop a token from the lexer") *)
+| PnPushIgnoredUnreachable (* Parser::p_push_ignored: unreachable!() on a non-ignored pending token *)
+| PnBuilderFinishNode      (* rowan GreenNodeBuilder::p_finish_node: parents.pop().unwrap() / drain out of range *)
+| PnBuilderCheckpointLen   (* start_node_at: assert!(checkpoint <= children.len()) *)
+| PnBuilderCheckpointParent(* start_node_at: assert!(checkpoint >= first_child) *)
+| PnBuilderFinish          (* p_finish: assert_eq!(children.len(), 1) / root is a token *)
+| PnRecUnbalanced          (* g_document: assert_eq!(p.recursion_limit.current, 0) *)
+| PnRecUnderflow           (* LimitTracker::decrement: usize underflow (debug: p_panic; release: wrap) *)
+| PnNameSlice              (* g_name::g_validate_name: g_name[1..] off a char boundary *)
+| PnPeekNZero              (* p_peek_n_inner: n - 1 with n = 0 *)
+| PnDebugAssert.           (* p_peek_while / p_peek_while_kind: debug_assert!(before != current_token) *)
 
-Inductive outcome (A : Type) :=
-| Ok (a : A)
-| Panic (why : pwhy)
-| OutOfFuel.
-Arguments Ok {A} a.
-Arguments Panic {A} why.
-Arguments OutOfFuel {A}.
+Inductive poutcome (A : Type) :=
+| POk (a : A)
+| PPanic (why : pwhy)
+| POutOfFuel.
+Arguments POk {A} a.
+Arguments PPanic {A} why.
+Arguments POutOfFuel {A}.
 
-Definition is_ok {A} (o : outcome A) : bool := match o with Ok _ => true | _ => false end.
-Definition is_panic {A} (o : outcome A) : bool := match o with Panic _ => true | _ => false end.
+Definition p_is_ok {A} (o : poutcome A) : bool := match o with POk _ => true | _ => false end.
+Definition p_is_panic {A} (o : poutcome A) : bool := match o with PPanic _ => true | _ => false end.
 
-Definition omap {A B} (f : A -> B) (o : outcome A) : outcome B :=
-  match o with Ok a => Ok (f a) | Panic w => Panic w | OutOfFuel => OutOfFuel end.
-Definition obind {A B} (o : outcome A) (f : A -> outcome B) : outcome B :=
-  match o with Ok a => f a | Panic w => Panic w | OutOfFuel => OutOfFuel end.
+Definition p_omap {A B} (f : A -> B) (o : poutcome A) : poutcome B :=
+  match o with POk a => POk (f a) | PPanic w => PPanic w | POutOfFuel => POutOfFuel end.
+Definition p_obind {A B} (o : poutcome A) (f : A -> poutcome B) : poutcome B :=
+  match o with POk a => f a | PPanic w => PPanic w | POutOfFuel => POutOfFuel end.
